@@ -657,3 +657,7 @@ fn report_exit(reason: &eyre::Result<&str>, message: &str) {
         Err(error) => error!(%error, message),
     }
 }
+
+#[cfg(all(test, feature = "verif-batch"))]
+#[path = "/verif/harness/relayer/batch.rs"]
+mod verif;
